@@ -234,6 +234,57 @@ func checkHashes(names []enc.Name) string {
 	return ""
 }
 
+// white-box dumps (not compared as observables of C05; see design/C05.md)
+
+// dumpTree: every node of the name tree as <path>:<n|-><h|-><s|->, sorted.
+func dumpTree() string {
+	var out []string
+	for _, nd := range tree.VerifDumpNodes() {
+		fl := func(b bool, c string) string {
+			if b {
+				return c
+			}
+			return "-"
+		}
+		out = append(out, common.NameText(nd.Path)+":"+fl(nd.HasName, "n")+fl(len(nd.NextHops) > 0, "h")+fl(nd.Strategy != nil, "s"))
+	}
+	sort.Strings(out)
+	return strings.Join(out, ";")
+}
+
+// dumpHash: real names, then virtual entries <virtual name>:<md>:<number of recorded names>, sorted.
+func dumpHash() string {
+	_, real, virt := hash.VerifDump()
+	byHash := map[uint64]string{}
+	for _, n := range univ {
+		for k := 0; k <= len(n); k++ {
+			byHash[n[:k].Hash()] = common.NameText(n[:k])
+		}
+	}
+	var r, v []string
+	for _, e := range real {
+		r = append(r, common.NameText(e.Name))
+	}
+	for _, e := range virt {
+		nm, ok := byHash[e.Hash]
+		if !ok {
+			nm = "?"
+		}
+		md := "-"
+		if e.InVirt {
+			md = strconv.Itoa(e.Md)
+		}
+		cnt := "-"
+		if e.InNames {
+			cnt = strconv.Itoa(len(e.NamesBytes))
+		}
+		v = append(v, nm+":"+md+":"+cnt)
+	}
+	sort.Strings(r)
+	sort.Strings(v)
+	return "real=" + strings.Join(r, ";") + " virt=" + strings.Join(v, ";")
+}
+
 func exec(op string) string {
 	f := common.Fields(op)
 	if f[0] != "new" && tree == nil {
@@ -279,6 +330,8 @@ func exec(op string) string {
 	case "q":
 		n := common.ParseNameText(f[1])
 		return both(func(t table.FibStrategy) string { return item(t, n) })
+	case "wb":
+		return "T " + dumpTree() + " H " + dumpHash()
 	case "lf":
 		return both(listFib)
 	case "ls":
